@@ -92,9 +92,14 @@ def invert4rankTensor(c4):
     Inverts 4th rank tensor to give stiffness tensor
 
     This is done by converting to 2nd rank, inverting, then converting back to 4th rank
+
+    The double contraction a_ijkl * b_klmn counts every shear pair (k != l) twice, so in the
+    6x6 form the shear columns carry a weight of 2: a:b -> a2 * w * b2 and the 4th rank identity 
+    becomes 1/w. The inverse in the 6x6 form is therefore inv(a2 * w) / w
     '''
+    w = np.array([1, 1, 1, 2, 2, 2])
     c2 = convert4To2rankTensor(c4)
-    return convert2To4rankTensor(np.linalg.inv(c2))
+    return convert2To4rankTensor(np.linalg.inv(c2 * w) / w)
 
 def convertVecTo2rankTensor(v):
     '''
